@@ -1,0 +1,112 @@
+//go:build verif
+
+// Verification hook (build tag verif only): direct entry to the chunk-size
+// arithmetic and the per-chunk protection of a channel instance, so that a
+// harness can sweep chunk sizes without a TCP connection per size. Nothing in
+// here changes behaviour; it only calls the unexported functions that the send
+// path (sendAsyncWithTimeout / writeMessageChunks) calls.
+
+package uasc
+
+import (
+	"encoding/binary"
+
+	"github.com/gopcua/opcua/id"
+	"github.com/gopcua/opcua/ua"
+	"github.com/gopcua/opcua/uapolicy"
+)
+
+// VerifInstance wraps a channelInstance that was put into a given policy and
+// mode with symmetric keys derived from the given nonces, the same way the
+// package's own tests build one (secure_channel_chunk_encrypted_test.go).
+type VerifInstance struct {
+	c *channelInstance
+}
+
+// VerifNewSymmetricInstance builds an active channel instance for policy uri
+// and the given mode; the keys come from uapolicy.Symmetric(uri, localNonce,
+// remoteNonce), exactly as handleOpenSecureChannelResponse derives them.
+func VerifNewSymmetricInstance(uri string, mode ua.MessageSecurityMode, localNonce, remoteNonce []byte, channelID, tokenID uint32) (*VerifInstance, error) {
+	algo, err := uapolicy.Symmetric(uri, localNonce, remoteNonce)
+	if err != nil {
+		return nil, err
+	}
+	s := &SecureChannel{
+		cfg: &Config{
+			SecurityPolicyURI: uri,
+			SecurityMode:      mode,
+		},
+		instances: make(map[uint32][]*channelInstance),
+	}
+	c := newChannelInstance(s)
+	c.algo = algo
+	c.state = channelActive
+	c.secureChannelID = channelID
+	c.securityTokenID = tokenID
+	s.activeInstance = c
+	s.instances[channelID] = []*channelInstance{c}
+	return &VerifInstance{c: c}, nil
+}
+
+// SetMaximumBodySize runs the real size computation and returns its result.
+func (v *VerifInstance) SetMaximumBodySize(chunkSize int) uint32 {
+	v.c.SetMaximumBodySize(chunkSize)
+	return v.c.maxBodySize
+}
+
+// MaxBodySize returns the value the last SetMaximumBodySize stored.
+func (v *VerifInstance) MaxBodySize() uint32 { return v.c.maxBodySize }
+
+// AlgoSizes reports what the policy's algorithm object says about itself
+// (diagnostics only; the harness oracle has its own table).
+func (v *VerifInstance) AlgoSizes() (cipherBlock, plainBlock, sigLen, remoteSigLen int) {
+	a := v.c.algo
+	return a.BlockSize(), a.PlaintextBlockSize(), a.SignatureLength(), a.RemoteSignatureLength()
+}
+
+// verifRawBody is a service body that encodes to exactly the bytes it holds.
+type verifRawBody []byte
+
+func (b verifRawBody) Encode() ([]byte, error) { return b, nil }
+
+// EncodeAndProtect builds a MSG message whose encoded body (4-byte TypeID
+// followed by raw) has len(raw)+4 bytes, splits it with the real chunk encoder
+// using bodyLimit as the per-chunk body size (pass MaxBodySize() for what the
+// channel itself would do), and protects every chunk with the real
+// signAndEncrypt, advancing the sequence number of follow-up chunks the way
+// the send path does. The returned slices are the bytes that would go on the
+// wire.
+func (v *VerifInstance) EncodeAndProtect(raw []byte, bodyLimit uint32, requestID uint32) ([][]byte, error) {
+	c := v.c
+	c.Lock()
+	defer c.Unlock()
+	m := c.newMessage(verifRawBody(raw), id.ReadRequest_Encoding_DefaultBinary, requestID)
+	chunks, err := m.EncodeChunks(bodyLimit)
+	if err != nil {
+		return nil, err
+	}
+	out := make([][]byte, len(chunks))
+	for i, chunk := range chunks {
+		if i > 0 {
+			number := c.nextSequenceNumber()
+			binary.LittleEndian.PutUint32(chunk[16:], uint32(number))
+		}
+		chunk, err = c.signAndEncrypt(m, chunk)
+		if err != nil {
+			return nil, err
+		}
+		out[i] = chunk
+	}
+	return out, nil
+}
+
+// VerifyAndDecrypt runs the real receive-side chunk processing of this
+// instance on one wire chunk and returns the plaintext behind the security
+// header (sequence header + body).
+func (v *VerifInstance) VerifyAndDecrypt(wire []byte) ([]byte, error) {
+	m := new(MessageChunk)
+	if _, err := m.Decode(wire); err != nil {
+		return nil, err
+	}
+	return v.c.verifyAndDecrypt(m, wire)
+}
